@@ -256,7 +256,7 @@ def run(ck, sq, Event, histories, replay_obj, quick):
     """histories: (name, lazy, concrete steps) - what the main stream of the C06 check
     executed (its random histories are generators drawing from ck.rng; here they are re-run
     from the concrete steps, so both streams see the same calls)."""
-    ck.prove(props_file="Props/C06State.v", extra_targets=["Model/CrashStoreDriver.v"])
+    ck.prove(props_file="Props/C06State.v", extra_targets=["Bridge/BridgeCrashStore.v", "Model/CrashStoreDriver.v"])
     ok2, out = common.build_driver("C06State", ck.log, "ExC06State")
     if not ok2:
         ck.broken.append("state model no longer extracts/compiles: " + out[-300:])
@@ -306,11 +306,259 @@ def run(ck, sq, Event, histories, replay_obj, quick):
         "datastr cells are compared through labels (datastr {\"n\": i} = i); no sampling of crash points")
 
 
+# ---------------------------------------------------------------------------
+# real crashes (thorough tier): SIGKILL / exit without shutdown of a child process, then a
+# reopen; the reopened tables must be the model's tables after some prefix of the statements,
+# within the bounds of the property
+
+
+def do_call(st, Event, spec, counter):
+    """One call with the arguments harness/c06_lib.py Runner.call would build (same events)."""
+    name = spec[0]
+    nxt = counter + 1
+    if name == "create_bucket":
+        st.create_bucket(spec[1], "t", "c", "h", lib.T0.isoformat(), None, None)
+    elif name == "update_bucket":
+        st.update_bucket(spec[1], data={"v": spec[2]})
+    elif name == "delete_bucket":
+        st.delete_bucket(spec[1])
+    elif name == "insert_one":
+        return st.insert_one(spec[1], lib._ev(Event, nxt)).id
+    elif name == "insert_many":
+        evs = [lib._ev(Event, nxt + k, eid=i) for k, i in enumerate(spec[2])]
+        evs += [lib._ev(Event, nxt + len(spec[2]) + k) for k in range(spec[3])]
+        st.insert_many(spec[1], evs)
+    elif name == "replace":
+        st.replace(spec[1], spec[2], lib._ev(Event, nxt))
+    elif name == "replace_last":
+        st.replace_last(spec[1], lib._ev(Event, nxt))
+    elif name == "delete":
+        st.delete(spec[1], spec[2])
+    elif name == "get_eventcount":
+        st.get_eventcount(spec[1])
+    else:
+        raise RuntimeError(name)
+
+
+def events_used(spec):
+    name = spec[0]
+    if name in ("insert_one", "replace", "replace_last"):
+        return 1
+    if name == "insert_many":
+        return len(spec[2]) + spec[3]
+    return 0
+
+
+def child(d, seed):
+    """Drives a lazily-committing file-backed SqliteStorage with the real clock; logs every call
+    (before it runs), every write statement (before it runs) and every return."""
+    import os
+    import random
+    import sys
+    import time
+    common.setup_impl_env()
+    from aw_core.models import Event
+    from aw_datastore.storages import SqliteStorage
+    log = os.open(os.path.join(d, "log"), os.O_WRONLY | os.O_CREAT | os.O_APPEND)
+
+    def out(*rec):
+        os.write(log, (json.dumps(rec) + "\n").encode())
+
+    def cb(sql):
+        if sql.lstrip().split(None, 1)[0].upper() in lib.WRITE_KW:
+            out("S")
+    st = SqliteStorage(testing=True, filepath=os.path.join(d, "k.db"))
+    st.conn.set_trace_callback(cb)
+    rng = random.Random(seed)
+    counter = 0
+    ids, extra = [], 0
+    first = True
+    stop = os.path.join(d, "stop")
+    while True:
+        if os.path.exists(stop):
+            sys.exit(0)                 # exit without shutdown
+        x = rng.random()
+        if first:
+            specs = [("create_bucket", "a")]
+        elif x < 0.55:
+            specs = [("insert_one", "a")]
+        elif x < 0.68 and ids:
+            specs = [("delete", "a", ids.pop(rng.randrange(len(ids))))]
+        elif x < 0.78 and ids:
+            specs = [("replace", "a", rng.choice(ids))]
+        elif x < 0.86 and ids:
+            specs = [("replace_last", "a")]
+        elif x < 0.92:
+            ups = tuple(rng.sample(ids, min(len(ids), rng.choice([0, 1, 2]))))
+            specs = [("insert_many", "a", ups, rng.choice([1, 5, 60, 120]))]
+        elif x < 0.94:
+            specs = [("update_bucket", "a", counter)]
+        elif x < 0.96:
+            extra += 1
+            specs = [("create_bucket", f"x{extra}"), ("insert_many", f"x{extra}", (), 3)]
+        elif x < 0.98 and extra:
+            specs = [("delete_bucket", f"x{extra}")]
+            extra -= 1
+        elif x < 0.99:
+            specs = [("get_eventcount", "a")]
+        else:
+            time.sleep(0.002)
+            continue
+        for spec in specs:
+            out("C", spec, counter)
+            ok = True
+            try:
+                r = do_call(st, Event, spec, counter)
+            except Exception:
+                ok = False
+            if spec[0] == "insert_one" and ok:
+                ids.append(r)
+            counter += events_used(spec)
+            out("R", ok)
+            if first:
+                out("READY")
+                first = False
+        if rng.random() < 0.3:
+            time.sleep(0.001)
+
+
+ATOMIC_CALLS = lib.BUCKET_CALLS + lib.SINGLE_EVENT_CALLS
+
+
+def kill_run(seed, delay):
+    """-> dict(violations=[(signature, description)], disagreements=[...], statements, lost)"""
+    import os
+    import shutil
+    import signal
+    import subprocess
+    import sys
+    import time
+    d = lib.scratch_dir()
+    res = {"violations": [], "disagreements": [], "statements": 0, "lost": 0, "delay": delay}
+    try:
+        p = subprocess.Popen([sys.executable, "-m", "harness.c06_state", "child", d, str(seed)],
+                             cwd=common.VERIF, env=dict(os.environ), stdout=subprocess.DEVNULL, stderr=subprocess.PIPE)
+        logp = os.path.join(d, "log")
+        t0 = time.time()
+        while time.time() - t0 < 60:
+            if os.path.exists(logp) and b'"READY"' in open(logp, "rb").read():
+                break
+            if p.poll() is not None:
+                break
+            time.sleep(0.01)
+        if p.poll() is not None:
+            res["disagreements"].append("child exited early: " + p.stderr.read().decode()[-300:])
+            return res
+        time.sleep(abs(delay))
+        if delay < 0:
+            open(os.path.join(d, "stop"), "w").close()
+            try:
+                p.wait(timeout=60)
+            except subprocess.TimeoutExpired:
+                os.kill(p.pid, signal.SIGKILL)
+                p.wait()
+        else:
+            os.kill(p.pid, signal.SIGKILL)
+            p.wait()
+        recs = []
+        for ln in open(logp, "rb").read().split(b"\n"):
+            try:
+                recs.append(json.loads(ln))
+            except ValueError:
+                pass                      # the line being written when the child died
+        # calls: [spec, counter, statements logged, returned?]
+        calls = []
+        for r in recs:
+            if r[0] == "C":
+                calls.append([tuple(tuple(x) if isinstance(x, list) else x for x in r[1]), r[2], 0, None])
+            elif r[0] == "S":
+                calls[-1][2] += 1
+            elif r[0] == "R":
+                calls[-1][3] = r[1]
+        logged = sum(c[2] for c in calls)
+        res["statements"] = logged
+        names = Names()
+        cops = [model_call(names, c[0], c[1]) for c in calls]
+        conn = sqlite3.connect(os.path.join(d, "k.db"), isolation_level=None)
+        got = full_dump(conn, names)
+        conn.close()
+        skip = max(0, logged - 700)     # the durable prefix cannot end further back than 50 + one call
+        sizes, digests = common.run_driver("C06State", [sx([2, cops, skip])])[0]
+        for ci, (c, n) in enumerate(zip(calls, sizes)):
+            if c[3] is not None and c[2] != n:
+                res["disagreements"].append(f"call #{ci} {c[0]}: {c[2]} write statements logged, the model's script has {n}")
+                return res
+        mine = [len(got[0]), len(got[1]), got[2], got[3], sum(e[4] for e in got[1]), sum(e[2] for e in got[1])]
+        cand = [skip + k for k, dg in enumerate(digests) if dg == mine and skip + k <= logged]
+        tables = common.run_driver("C06State", [sx([3, cops, cand])])[0] if cand else []
+        J = [j for j, t in zip(cand, tables) if t == got]
+        if not J:
+            res["disagreements"].append(f"after the crash the reopened tables are not the model's tables after any prefix of the "
+                                        f"{logged} statements logged (candidates by digest: {cand[:8]})")
+            return res
+        # the bounds of the property, on the best matching prefix
+        done = 0                # statements of completed calls
+        must = 0                # statements up to the last returned bucket operation
+        at = 0
+        ranges = []
+        for c in calls:
+            a, at = at, at + c[2]
+            if c[3] is not None:
+                done = at
+                if c[0][0] in lib.BUCKET_CALLS and c[3]:
+                    must = at
+            if c[0][0] in ATOMIC_CALLS and c[2] >= 2:
+                ranges.append((a, a + c[2], c[0]))
+
+        def fine(j):
+            return done - j <= lib.THRESHOLD and j >= must and all(j <= a or j >= b for a, b, _ in ranges)
+        good = [j for j in J if fine(j)]
+        j = max(good or J)
+        res["lost"] = max(0, done - j)
+        if not good:
+            if done - j > lib.THRESHOLD:
+                res["violations"].append(("C06:unbounded-loss", f"after the crash the reopened tables are those after {j} of the "
+                                          f"{done} statements of completed calls ({done - j} > 50 lost)"))
+            if j < must:
+                res["violations"].append(("C06:bucket-op-not-durable", f"after the crash only {j} of the {must} statements up to "
+                                          f"the last returned bucket operation are in the reopened tables"))
+            for a, b, spec in ranges:
+                if a < j < b:
+                    res["violations"].append(("C06:operation-split", f"after the crash the reopened tables end inside {spec} "
+                                              f"(statements {a}..{b - 1}, {j} applied)"))
+        return res
+    finally:
+        shutil.rmtree(d, ignore_errors=True)
+
+
+def run_sigkill(ck, n_runs, seed):
+    """thorough tier: n_runs real crashes of a child process against the state model"""
+    for i in range(n_runs):
+        delay = ck.rng.uniform(0.15, 1.0) * (-1 if i % 5 == 4 else 1)   # every fifth: plain exit, no shutdown
+        res = kill_run(seed * 1000 + i, delay)
+        ck.evaluations += 1
+        ck.count("state:sigkill" if delay > 0 else "state:exit-without-shutdown")
+        ck.count("state:sigkill:statements-logged", res["statements"])
+        ck.count("state:sigkill:lost-statements", res["lost"])
+        rerun = (f"PYTHONPATH={common.REPO}:{common.VERIF} /venv/bin/python -m harness.c06_state kill "
+                 f"{seed * 1000 + i} {res['delay']}")
+        for sig, desc in res["violations"]:
+            ck.failing_input(sig, "state stream, real crash: " + desc, {"seed": seed * 1000 + i, "kill_after_s": res["delay"], "rerun": rerun})
+        for dsc in res["disagreements"][:1]:
+            ck.disagreement("state-model:sigkill", dsc, {"seed": seed * 1000 + i, "kill_after_s": res["delay"], "rerun": rerun})
+
+
 def main():
     """Replay one concrete history against the state model:
     python -m harness.c06_state '{"lazy": true, "steps": [[dt_us, tick_us, [call, args...]], ...]}'
     (needs build/C06State/driver, i.e. a previous ./run.sh quick C06 or ./setup.sh)"""
     import sys
+    if sys.argv[1] == "child":
+        return child(sys.argv[2], int(sys.argv[3]))
+    if sys.argv[1] == "kill":
+        res = kill_run(int(sys.argv[2]), float(sys.argv[3]))
+        print(json.dumps(res, indent=1))
+        return 1 if res["violations"] or res["disagreements"] else 0
     arg = sys.argv[1]
     case = json.load(open(arg)) if not arg.lstrip().startswith("{") else json.loads(arg)
     while "history" in case or "replay" in case:
